@@ -39,6 +39,11 @@ type c17RefContract struct {
 	elem     types.V2FileContractElement
 	formedAt types.ChainIndex
 	resolved bool
+	// the block that resolved the contract also revised it (one diff with Revision and Resolution);
+	// preRev is the revision number the chain held before that block
+	sameBlock bool
+	preRev    uint64
+	renewed   bool
 }
 
 type c17Ref struct {
@@ -90,11 +95,14 @@ func (r *c17Ref) extend(cau chain.ApplyUpdate) *c17Ref {
 			if !ok {
 				continue
 			}
-			if diff.Revision != nil {
-				c.elem.V2FileContract = *diff.Revision
-			}
 			if diff.Resolution != nil {
 				c.resolved = true
+				c.sameBlock = diff.Revision != nil
+				c.preRev = c.elem.V2FileContract.RevisionNumber
+				_, c.renewed = diff.Resolution.(*types.V2FileContractRenewal)
+			}
+			if diff.Revision != nil {
+				c.elem.V2FileContract = *diff.Revision
 			}
 			n.contracts[id] = c
 		}
@@ -166,6 +174,11 @@ type c17Node struct {
 
 	nBatches, nReorgBatches, nRevised, nFormed, maxDepth int
 	nRenewed, nStaleRenewalBatches                       int
+	nSameBlock, nRejectedConfirmed, nMidResets           int
+	wasRejected                                          map[types.FileContractID]bool
+	sameSeen                                             map[types.FileContractID]uint64 // contract -> revision before the block that revised and resolved it
+	stopAt                                               uint64                          // sync stops once the processed tip has reached this height (0 = no limit)
+	rescanning                                           bool                            // between ResetChainState and the end of the rescan the rows carry statuses of blocks not processed again yet
 }
 
 func c17NewNode(t *testing.T, em *verifEmitter, rng *rand.Rand, batchSize int) *c17Node {
@@ -192,7 +205,8 @@ func c17NewNode(t *testing.T, em *verifEmitter, rng *rand.Rand, batchSize int) *
 	t.Cleanup(func() { cman.Close() })
 	n := &c17Node{t: t, em: em, rng: rng, network: network, genesis: genesis, cn: cn, db: cn.Store, cm: cn.Chain, w: wm, cman: cman, logs: logs,
 		hostKey: hostKey, renterKey: renterKey, batchSize: batchSize,
-		blockNo: map[types.BlockID]int{}, heights: map[types.BlockID]uint64{}, refs: map[types.BlockID]*c17Ref{}, byID: map[types.FileContractID]*c17Contract{}}
+		blockNo: map[types.BlockID]int{}, heights: map[types.BlockID]uint64{}, refs: map[types.BlockID]*c17Ref{}, byID: map[types.FileContractID]*c17Contract{},
+		wasRejected: map[types.FileContractID]bool{}, sameSeen: map[types.FileContractID]uint64{}}
 	n.blockNo[types.BlockID{}] = 0
 	return n
 }
@@ -236,24 +250,30 @@ func (n *c17Node) coqEvents(diffs []consensus.V2FileContractElementDiff, dir str
 		case d.Created:
 			evs = append(evs, fmt.Sprintf("EFormed %d %d", c.num, fc.RevisionNumber))
 			n.em.Count("event:" + dir + " formation")
-		case d.Revision != nil:
-			if d.Resolution != nil {
-				n.em.Count("event:revised-and-resolved-in-one-block")
-			}
-			evs = append(evs, fmt.Sprintf("ERevised %d %d %d", c.num, fc.RevisionNumber, d.Revision.RevisionNumber))
-			n.em.Count("event:" + dir + " revision")
-		case d.Resolution != nil:
-			k := "KSuccessful"
-			switch d.Resolution.(type) {
-			case *types.V2FileContractRenewal:
-				k = "KRenewed"
-			case *types.V2FileContractExpiration:
-				if fc.MissedHostValue.Cmp(fc.HostOutput.Value) < 0 {
-					k = "KFailed"
+		default:
+			// buildContractState: `case rev != nil: ...; fallthrough; case res != nil:` — a diff with
+			// Revision and Resolution is recorded as revised AND resolved
+			if d.Revision != nil {
+				if d.Resolution != nil {
+					n.em.Count("event:" + dir + " revised-and-resolved-in-one-block")
+					n.nSameBlock++
 				}
+				evs = append(evs, fmt.Sprintf("ERevised %d %d %d", c.num, fc.RevisionNumber, d.Revision.RevisionNumber))
+				n.em.Count("event:" + dir + " revision")
 			}
-			evs = append(evs, fmt.Sprintf("EResolved %d %s", c.num, k))
-			n.em.Count("event:" + dir + " resolution " + k)
+			if d.Resolution != nil {
+				k := "KSuccessful"
+				switch d.Resolution.(type) {
+				case *types.V2FileContractRenewal:
+					k = "KRenewed"
+				case *types.V2FileContractExpiration:
+					if fc.MissedHostValue.Cmp(fc.HostOutput.Value) < 0 {
+						k = "KFailed"
+					}
+				}
+				evs = append(evs, fmt.Sprintf("EResolved %d %s", c.num, k))
+				n.em.Count("event:" + dir + " resolution " + k)
+			}
 		}
 	}
 	return coqList(evs)
@@ -334,7 +354,7 @@ func (n *c17Node) runBatch(reverted []chain.RevertUpdate, applied []chain.ApplyU
 // sync processes the chain manager's updates in batches, like index.Manager.syncDB.
 func (n *c17Node) sync() {
 	n.computeRefs()
-	for n.tip != n.cm.Tip() && !n.dead {
+	for n.tip != n.cm.Tip() && !n.dead && (n.stopAt == 0 || n.tip.Height < n.stopAt) {
 		reverted, applied, err := n.cm.UpdatesSince(n.tip, n.batchSize)
 		if err != nil {
 			n.t.Fatal(err)
@@ -370,7 +390,11 @@ func (n *c17Node) sync() {
 		}
 		if cls != "COk" {
 			n.dead = true
-			if cls == "CPanic" {
+			if cls == "CPanic" && n.rescanning && len(reverted) > 0 {
+				// a reorg reached below the position of a rescan in progress: the rows still carry the
+				// statuses of blocks that have not been processed again (known finding)
+				n.em.Monitor("reorg-below-rescan-position-panics", failure)
+			} else if cls == "CPanic" {
 				n.em.Monitor("contract-chain-update-panics", failure)
 			} else {
 				n.em.Monitor("contract-chain-update-fails", failure)
@@ -379,6 +403,9 @@ func (n *c17Node) sync() {
 			return
 		}
 		n.tip = next
+		if n.tip == n.cm.Tip() {
+			n.rescanning = false
+		}
 		n.countRenewalStates()
 		n.observe()
 		// lifecycle actions, as syncDB triggers them after every batch
@@ -566,7 +593,93 @@ func (n *c17Node) observe() {
 		}
 	}
 	n.checkActions(cs)
-	em.Step("Observe", fmt.Sprintf("OState %s %s %s %s", coqList(ces), coqList(ies), n.coqOptIdx(storeTip), n.coqRenewed()))
+	n.checkRows(ref)
+	em.Step("Observe", fmt.Sprintf("OState %s %s %s %s %s", coqList(ces), coqList(ies), n.coqOptIdx(storeTip), n.coqRenewed(), n.coqStatuses()))
+}
+
+func c17CoqStatus(st contracts.V2ContractStatus) string {
+	switch st {
+	case contracts.V2ContractStatusPending:
+		return "SUnconfirmed"
+	case contracts.V2ContractStatusRejected:
+		return "SRejected"
+	case contracts.V2ContractStatusActive:
+		return "SActive"
+	case contracts.V2ContractStatusSuccessful:
+		return "SSuccessful"
+	case contracts.V2ContractStatusRenewed:
+		return "SRenewed"
+	case contracts.V2ContractStatusFailed:
+		return "SFailed"
+	}
+	return "SUnknown_" + string(st)
+}
+
+// coqStatuses is the contract_status column of the host's contract rows, by contract number.
+func (n *c17Node) coqStatuses() string {
+	var st []string
+	for _, c := range n.known {
+		hc, err := n.cman.V2Contract(c.id)
+		if err != nil {
+			n.t.Fatal(err)
+		}
+		st = append(st, fmt.Sprintf("(%d%%N, %s)", c.num, c17CoqStatus(hc.Status)))
+	}
+	return coqList(st)
+}
+
+// checkRows: monitors on the contract rows and the elements kept for them that do not go through
+// the model (reference = what the best chain up to the processed tip says).
+//   - a contract whose formation is on the processed chain must not be pending or rejected, whatever
+//     happened to its row before (rejected, then confirmed late);
+//   - a block that revised AND resolved a contract (one diff with Revision and Resolution): the row
+//     has the resolution and the stored element carries the REVISED contract; once that block is
+//     disconnected the row is active again and the stored element carries the contract as it was
+//     BEFORE the block.  (Not judged in the middle of a rescan: the rows then carry the statuses of
+//     blocks that have not been processed again yet.)
+func (n *c17Node) checkRows(ref *c17Ref) {
+	for _, c := range n.known {
+		hc, err := n.cman.V2Contract(c.id)
+		if err != nil {
+			n.t.Fatal(err)
+		}
+		rc, onChain := ref.contracts[c.id]
+		if hc.Status == contracts.V2ContractStatusRejected {
+			n.wasRejected[c.id] = true
+			n.em.Count("rows:rejected row seen")
+		}
+		if onChain && (hc.Status == contracts.V2ContractStatusPending || hc.Status == contracts.V2ContractStatusRejected) {
+			n.em.Monitor("contract-row-unconfirmed-although-formation-on-processed-chain", fmt.Sprintf("contract %d status %s formed at %v tip %v", c.num, hc.Status, rc.formedAt, n.tip))
+		}
+		if onChain && n.wasRejected[c.id] {
+			n.nRejectedConfirmed++
+			n.em.Count("rows:rejected-then-confirmed contract on the processed chain")
+		}
+		if !onChain || n.rescanning {
+			continue
+		}
+		_, elem, eerr := n.cman.V2FileContractElement(c.id)
+		pre, seen := n.sameSeen[c.id]
+		switch {
+		case rc.resolved && rc.sameBlock:
+			n.sameSeen[c.id] = rc.preRev
+			n.em.Count("same-block:revision and resolution of one contract on the processed chain")
+			if rc.renewed && hc.Status != contracts.V2ContractStatusRenewed {
+				n.em.Monitor("same-block-revised-and-renewed-row-not-renewed", fmt.Sprintf("contract %d status %s tip %v", c.num, hc.Status, n.tip))
+			}
+			if eerr != nil || elem.V2FileContract.RevisionNumber != rc.elem.V2FileContract.RevisionNumber {
+				n.em.Monitor("same-block-revised-and-resolved-element-not-the-revised-contract", fmt.Sprintf("contract %d stored revision %d want %d (%v) tip %v", c.num, elem.V2FileContract.RevisionNumber, rc.elem.V2FileContract.RevisionNumber, eerr, n.tip))
+			}
+		case seen && !rc.resolved && rc.elem.V2FileContract.RevisionNumber == pre:
+			n.em.Count("same-block:block with revision and resolution disconnected, contract unresolved at the earlier revision")
+			if hc.Status != contracts.V2ContractStatusActive {
+				n.em.Monitor("same-block-revert-row-not-active-again", fmt.Sprintf("contract %d status %s tip %v", c.num, hc.Status, n.tip))
+			}
+			if eerr != nil || elem.V2FileContract.RevisionNumber != pre {
+				n.em.Monitor("same-block-revert-element-not-the-pre-revision-contract", fmt.Sprintf("contract %d stored revision %d want %d (%v) tip %v", c.num, elem.V2FileContract.RevisionNumber, pre, eerr, n.tip))
+			}
+		}
+	}
 }
 
 // coqRenewed is the renewed_to column of the host's contract rows, by contract number.
@@ -713,9 +826,22 @@ func (n *c17Node) formContract(duration uint64) {
 	c := &c17Contract{id: txn.V2FileContractID(txn.ID(), 0), num: len(n.known) + 1, fc: fc}
 	n.known = append(n.known, c)
 	n.byID[c.id] = c
-	n.em.Step(fmt.Sprintf("AddContract %d", c.num), "ODone COk")
+	n.em.Step(fmt.Sprintf("AddContract %d %d", c.num, n.negotiationHeight(c.id)), "ODone COk")
 	n.em.Count("op:form-contract")
 	n.nFormed++
+}
+
+// negotiationHeight is the negotiation_height the host stored for the contract row
+// (contracts.Manager: cm.chain.Tip().Height when the contract was added).
+func (n *c17Node) negotiationHeight(id types.FileContractID) uint64 {
+	hc, err := n.cman.V2Contract(id)
+	if err != nil {
+		n.t.Fatal(err)
+	}
+	if hc.NegotiationHeight != n.cm.Tip().Height {
+		n.em.Monitor("negotiation-height-differs-from-chain-tip", fmt.Sprintf("stored %d chain tip %v", hc.NegotiationHeight, n.cm.Tip()))
+	}
+	return hc.NegotiationHeight
 }
 
 // revise signs a new revision, tells the host about it and (mostly) broadcasts it in a
@@ -735,11 +861,16 @@ func (n *c17Node) revise() {
 	if len(cands) == 0 {
 		return
 	}
-	c := cands[n.rng.Intn(len(cands))]
+	n.reviseC(cands[n.rng.Intn(len(cands))], n.rng.Intn(4) != 0)
+}
+
+// reviseC revises contract c; broadcast: the revision goes to the pool in a transaction built from
+// the element the host stores.  It reports (revision number of the stored element, new number, ok).
+func (n *c17Node) reviseC(c *c17Contract, broadcast bool) (uint64, uint64, bool) {
 	basis, elem, err := n.cman.V2FileContractElement(c.id)
 	if err != nil {
 		n.em.Monitor("contract-element-missing-for-confirmed-contract", fmt.Sprintf("contract %d: %v", c.num, err))
-		return
+		return 0, 0, false
 	}
 	cs := n.cm.TipState()
 	rev := c.fc
@@ -751,12 +882,12 @@ func (n *c17Node) revise() {
 	rev.HostSignature, rev.RenterSignature = n.hostKey.SignHash(sh), n.renterKey.SignHash(sh)
 	if err := n.cman.ReviseV2Contract(c.id, rev, nil, proto4.Usage{}); err != nil {
 		n.em.Count("revise:host-refused")
-		return
+		return 0, 0, false
 	}
 	c.fc = rev
-	if n.rng.Intn(4) == 0 {
+	if !broadcast {
 		n.em.Count("op:revise-host-only") // the host broadcasts it itself before the proof window
-		return
+		return 0, 0, false
 	}
 	txn := types.V2Transaction{FileContractRevisions: []types.V2FileContractRevision{{Parent: elem, Revision: rev}}}
 	if _, err := n.cm.AddV2PoolTransactions(basis, []types.V2Transaction{txn}); err != nil {
@@ -765,10 +896,45 @@ func (n *c17Node) revise() {
 		} else {
 			n.em.Count("revise:pool-refused-other")
 		}
-		return
+		return 0, 0, false
 	}
 	n.em.Count("op:revise-broadcast")
 	n.nRevised++
+	return elem.V2FileContract.RevisionNumber, rev.RevisionNumber, true
+}
+
+// renewable: confirmed, unresolved contracts without a negotiated renewal, far enough from their proof height
+func (n *c17Node) renewable() (cands []*c17Contract) {
+	ref := n.refs[n.tip.ID]
+	if ref == nil || n.tip != n.cm.Tip() {
+		return nil
+	}
+	for _, c := range n.known {
+		rc, ok := ref.contracts[c.id]
+		if ok && !rc.resolved && c.renewedTo == nil && n.tip.Height+3 < rc.elem.V2FileContract.ProofHeight {
+			cands = append(cands, c)
+		}
+	}
+	return
+}
+
+// reviseAndRenew hands a revision of a contract AND its renewal to the pool, both built from the
+// element the host stores now (the renewal's parent is the contract before the revision): the next
+// block mined from the pool carries both, core merges them into one diff with Revision and Resolution.
+func (n *c17Node) reviseAndRenew() bool {
+	cands := n.renewable()
+	if len(cands) == 0 {
+		return false
+	}
+	c := cands[n.rng.Intn(len(cands))]
+	if _, _, ok := n.reviseC(c, true); !ok {
+		return false
+	}
+	if !n.renewC(c, 0) {
+		return false
+	}
+	n.em.Count("op:revision and renewal of one contract handed to the pool together")
+	return true
 }
 
 // renewalTxn builds the renewal transaction of p from the element the host stores NOW for the old
@@ -817,21 +983,14 @@ func (n *c17Node) poolRenewal(p *c17Renewal, basis types.ChainIndex, txn types.V
 // processed syncs; after < 0: it is never broadcast and its inputs are released (the wallet
 // will spend them otherwise).
 func (n *c17Node) renew(after int) bool {
-	ref := n.refs[n.tip.ID]
-	if ref == nil || n.tip != n.cm.Tip() {
-		return false
-	}
-	var cands []*c17Contract
-	for _, c := range n.known {
-		rc, ok := ref.contracts[c.id]
-		if ok && !rc.resolved && c.renewedTo == nil && n.tip.Height+3 < rc.elem.V2FileContract.ProofHeight {
-			cands = append(cands, c)
-		}
-	}
+	cands := n.renewable()
 	if len(cands) == 0 {
 		return false
 	}
-	c := cands[n.rng.Intn(len(cands))]
+	return n.renewC(cands[n.rng.Intn(len(cands))], after)
+}
+
+func (n *c17Node) renewC(c *c17Contract, after int) bool {
 	_, elem, err := n.cman.V2FileContractElement(c.id)
 	if err != nil {
 		n.em.Monitor("contract-element-missing-for-confirmed-contract", fmt.Sprintf("contract %d: %v", c.num, err))
@@ -862,7 +1021,7 @@ func (n *c17Node) renew(after int) bool {
 	nc := &c17Contract{id: c.id.V2RenewalID(), num: len(n.known) + 1, fc: nfc, renewedFrom: c}
 	if err := n.cman.RenewV2Contract(set, proto4.Usage{}); err != nil {
 		n.w.ReleaseInputs(nil, []types.V2Transaction{txn})
-		n.em.Step(fmt.Sprintf("Renew %d %d", c.num, nc.num), "ODone CErr")
+		n.em.Step(fmt.Sprintf("Renew %d %d %d", c.num, nc.num, n.cm.Tip().Height), "ODone CErr")
 		n.em.Count("op:renew-refused-by-host")
 		return false
 	}
@@ -870,7 +1029,7 @@ func (n *c17Node) renew(after int) bool {
 	c.renewedTo = nc
 	n.known = append(n.known, nc)
 	n.byID[nc.id] = nc
-	n.em.Step(fmt.Sprintf("Renew %d %d", c.num, nc.num), "ODone COk")
+	n.em.Step(fmt.Sprintf("Renew %d %d %d", c.num, nc.num, n.negotiationHeight(nc.id)), "ODone COk")
 	n.nRenewed++
 	// negotiating the same renewal again must fail (the renewal's contract id exists) and change nothing
 	if n.rng.Intn(3) == 0 {
@@ -878,7 +1037,7 @@ func (n *c17Node) renew(after int) bool {
 		if err := n.cman.RenewV2Contract(set, proto4.Usage{}); err != nil {
 			cls = "CErr"
 		}
-		n.em.Step(fmt.Sprintf("Renew %d %d", c.num, nc.num), "ODone "+cls)
+		n.em.Step(fmt.Sprintf("Renew %d %d %d", c.num, nc.num, n.cm.Tip().Height), "ODone "+cls)
 		n.em.Count("op:renew-again " + cls)
 	}
 	switch {
@@ -1037,6 +1196,7 @@ func (n *c17Node) reset() {
 	n.tip = types.ChainIndex{}
 	n.sinceScan = 0
 	n.hmax = 0
+	n.rescanning = true
 }
 
 func c17Bin(n int) string {
@@ -1067,7 +1227,30 @@ func (n *c17Node) fund() {
 func (n *c17Node) randomSteps(steps int, maxReorg int) {
 	for i := 0; i < steps && !n.dead; i++ {
 		n.releaseHeld()
-		switch r := n.rng.Intn(24); {
+		switch r := n.rng.Intn(28); {
+		case r >= 27:
+			// ResetChainState in the middle of the history, then the rescan of the best chain
+			if n.nMidResets < 2 {
+				n.nMidResets++
+				n.em.Count("op:reset in the middle of a history")
+				n.reset()
+				n.sync()
+			}
+		case r >= 24:
+			// one block revises AND renews a contract; mostly it is reorged out soon after
+			if len(n.known) < 9 && n.reviseAndRenew() {
+				n.mine(1, types.VoidAddress)
+				n.sync()
+				if n.rng.Intn(3) != 0 {
+					n.mine(n.rng.Intn(2), types.VoidAddress)
+					n.sync()
+					n.reorg(1+n.rng.Intn(3), 1+n.rng.Intn(2))
+					n.sync()
+				}
+			} else {
+				n.mine(1, types.VoidAddress)
+				n.sync()
+			}
 		case r < 7:
 			addr := types.VoidAddress
 			if n.rng.Intn(3) == 0 {
@@ -1112,6 +1295,8 @@ func (n *c17Node) finish() {
 	n.em.Count(fmt.Sprintf("case:max-reorg-depth=%s", c17Bin(n.maxDepth)))
 	n.em.Count(fmt.Sprintf("case:renewals-negotiated=%s", c17Bin(n.nRenewed)))
 	n.em.Count(fmt.Sprintf("case:batches-with-unconfirmed-renewal=%s", c17Bin(n.nStaleRenewalBatches)))
+	n.em.Count(fmt.Sprintf("case:same-block-revision-and-resolution-events=%s", c17Bin(n.nSameBlock)))
+	n.em.Count(fmt.Sprintf("case:observations-of-rejected-then-confirmed-contracts=%s", c17Bin(n.nRejectedConfirmed)))
 	n.em.EndCase(n.nFormed > 0 && n.nReorgBatches > 0)
 }
 
@@ -1129,8 +1314,19 @@ func TestVerifC17Chain(t *testing.T) {
 		}
 		n := c17NewNode(t, em, verifCaseRand(id), batchSize)
 		em.BeginCase(id, desc)
+		em.Step("Configure 10", "ODone COk") // contracts.WithRejectAfter(10) in c17NewNode
 		body(n)
 		n.finish()
+	}
+
+	// cases that reproduce a known finding of C17 run only when C17 itself is checked (its props entry
+	// sets VERIF_C17_OWN); a property that borrows this test keeps every monitor hit a violation
+	runOwn := func(desc string, batchSize int, body func(n *c17Node)) {
+		if os.Getenv("VERIF_C17_OWN") == "" {
+			id++
+			return
+		}
+		run(desc, batchSize, body)
 	}
 
 	// directed 0: form, revise on chain, reorg below the revision, reorg below the formation
@@ -1310,6 +1506,130 @@ func TestVerifC17Chain(t *testing.T) {
 		n.sync()
 		n.mine(2, types.VoidAddress)
 		n.sync()
+	})
+	// directed 9: one block revises AND renews a contract (the revision and the renewal are handed to
+	// the pool together, both built from the element the host stores); the block is reorged out; the
+	// stored element must be usable again (revision through the pool); both confirm again
+	run("directed: revision and renewal of one contract in one block, reorged out, confirmed again", 1, func(n *c17Node) {
+		n.fund()
+		n.formContract(20)
+		n.mine(1, types.VoidAddress)
+		n.sync()
+		if !n.reviseAndRenew() {
+			n.em.Monitor("directed-same-block-setup-failed", "revision and renewal were not accepted together")
+			return
+		}
+		n.mine(1, types.VoidAddress) // the block carries both
+		n.sync()
+		n.countStatus("revised and renewed in one block:")
+		n.revise() // the renewal (contract 2) is revised from its stored element
+		n.mine(1, types.VoidAddress)
+		n.sync()
+		n.reorg(2, 1) // the block with both changes is disconnected
+		n.sync()
+		n.countStatus("same-block block reorged out:")
+		n.mineEmpty(1)
+		n.sync()
+		n.reviseC(n.known[0], true) // a revision built from the stored (pre-revision) element must be accepted by the pool
+		n.mine(1, types.VoidAddress)
+		n.sync()
+		n.mine(2, types.VoidAddress)
+		n.sync()
+		n.reorg(3, 1)
+		n.sync()
+		n.mine(2, types.VoidAddress)
+		n.sync()
+	})
+	// directed 10: the same with batch size 3 and a reset + rescan while the block with both changes
+	// is on the chain, then the reorg across it
+	run("directed: revision and renewal in one block, reset and rescan, reorg across it", 3, func(n *c17Node) {
+		n.fund()
+		n.formContract(24)
+		n.formContract(9)
+		n.mine(1, types.VoidAddress)
+		n.sync()
+		if !n.reviseAndRenew() {
+			n.em.Monitor("directed-same-block-setup-failed", "revision and renewal were not accepted together")
+			return
+		}
+		n.mine(2, types.VoidAddress)
+		n.sync()
+		n.reset()
+		n.sync()
+		n.countStatus("rescanned across same-block block:")
+		n.mine(1, types.VoidAddress)
+		n.sync()
+		n.reorg(4, 1)
+		n.sync()
+		n.mine(2, types.VoidAddress)
+		n.sync()
+		n.reset()
+		n.sync()
+		n.mine(1, types.VoidAddress)
+		n.sync()
+	})
+	// directed 11: two contracts are rejected (reject buffer 10); one formation confirms late, is
+	// reorged out (pending again, rejected again after the buffer), confirms again; reset + rescan in
+	// between; the host must be able to revise the late contract from its stored element
+	run("directed: rejected, confirmed late, reorged out, rejected again, confirmed, rescans", 2, func(n *c17Node) {
+		n.fund()
+		n.formContract(60)
+		n.mineEmpty(12) // rejected
+		n.sync()
+		n.countStatus("after reject buffer:")
+		n.mine(1, types.VoidAddress) // formation confirms late
+		n.sync()
+		n.countStatus("late formation confirmed:")
+		n.revise()
+		n.mine(1, types.VoidAddress)
+		n.sync()
+		n.reset()
+		n.sync()
+		n.countStatus("rescanned:")
+		n.reorg(3, 1) // formation reorged out; the formation transaction is back in the pool
+		n.sync()
+		n.countStatus("late formation reorged out:")
+		n.mineEmpty(12)
+		n.sync()
+		n.countStatus("rejected again:")
+		n.mine(1, types.VoidAddress)
+		n.sync()
+		n.countStatus("confirmed again:")
+		n.revise()
+		n.mine(2, types.VoidAddress)
+		n.sync()
+		n.reset()
+		n.sync()
+		n.mine(1, types.VoidAddress)
+		n.sync()
+	})
+	// directed 12 (only in C17's own run, VERIF_C17_OWN): KNOWN FINDING.  A contract is formed and later
+	// renewed; ResetChainState; the rescan has passed the formation but not the renewal when a reorg
+	// reaches below the formation: the row still says "renewed" (ResetChainState keeps the statuses,
+	// the rescan's formation branch skipped the transition) and revertV2ContractFormation panics.
+	runOwn("directed: reorg below the position of a rescan in progress (known finding)", 1, func(n *c17Node) {
+		n.fund()
+		n.formContract(30)
+		n.mine(1, types.VoidAddress) // formation
+		n.sync()
+		formedAt := n.tip.Height
+		n.mine(3, types.VoidAddress)
+		n.sync()
+		n.renew(0)
+		n.mine(1, types.VoidAddress) // renewal: the contract is resolved
+		n.sync()
+		n.mine(2, types.VoidAddress)
+		n.sync()
+		n.countStatus("before the reset:")
+		n.reset()
+		n.stopAt = formedAt + 2 // the rescan stops between the formation and the renewal
+		n.sync()
+		n.stopAt = 0
+		n.reorg(int(n.cm.Tip().Height-formedAt)+1, 1) // the reorg disconnects the formation block
+		n.sync()
+		if !n.dead {
+			n.em.Count("known-finding-not-reproduced: reorg below the rescan position did not panic")
+		}
 	})
 	if thorough {
 		// reorg deeper than the batch size and across the 144-block retention boundary
